@@ -753,11 +753,13 @@ def close(a, b, tol=1e-9):
     if a.shape != b.shape: return False
     return bool(np.all(np.abs(a - b) <= tol * np.maximum(1, np.maximum(np.abs(a), np.abs(b)))))
 
-def tag_of(e):
+def tag_of(e, chems=None):
     s = f'{type(e).__name__}: {e}'
     if "'int' object is not iterable" in s: return 'trim_cache'
     if "unhashable type: 'list'" in s: return 'overlap_kind'
     if 'list indices must be integers' in s: return 'phase_ellipsis'
+    if chems is not None and any(isinstance(k, tuple) and v[1] == 0 for k, v in chems._index_cache.items()):
+        return 'overlap_kind'      # a tuple key cached as a single chemical: same defect, other symptom
     return type(e).__name__
 
 def flat(sp, n):
@@ -807,7 +809,7 @@ def oracle(case):
             try:
                 got = o[key]
             except Exception as e:
-                return f'{tag_of(e)}: op {num}: reading valid key {key!r} raised {type(e).__name__}: {e}'
+                return f'{tag_of(e, chems)}: op {num}: reading valid key {key!r} raised {type(e).__name__}: {e}'
             if isinstance(got, (SparseVector, SparseArray)): got = got.to_array()
             if not close(got, expected):
                 return f'read-value: op {num}: indexer[{key!r}] = {got!r} but the dense data give {expected!r}'
@@ -842,7 +844,7 @@ def oracle(case):
                 o[key] = data
             except Exception as e:
                 if valid:
-                    return f'{tag_of(e)}: op {num}: writing {data!r} through valid key {key!r} raised {type(e).__name__}: {e}'
+                    return f'{tag_of(e, chems)}: op {num}: writing {data!r} through valid key {key!r} raised {type(e).__name__}: {e}'
                 continue
             if not valid: continue
             after = np.asarray(o.data.to_array(), float)
@@ -870,7 +872,7 @@ def oracle(case):
             try:
                 back = o[key]
             except Exception as e:
-                return f'{tag_of(e)}: op {num}: reading back {key!r} raised {type(e).__name__}: {e}'
+                return f'{tag_of(e, chems)}: op {num}: reading back {key!r} raised {type(e).__name__}: {e}'
             if isinstance(back, (SparseVector, SparseArray)): back = back.to_array()
             e2 = spec_read(index, after, phases, key)
             if not close(back, e2):
@@ -879,6 +881,8 @@ def oracle(case):
             cas = op[1] if kind == 'overlap' else op[2]
             other = make_other(cas)
             ok = all(c in index and not isinstance(index[c], list) for c in cas)
+            # two right chemicals landing on one left position: what mix_from then does is C01's concern
+            ok = ok and len(set(int(index[c]) for c in cas)) == len(cas) and len(set(cas)) == len(cas)
             try:
                 if kind == 'overlap':
                     li, ri = ix.index_overlap(chems, other, list(range(len(cas))))
